@@ -401,3 +401,75 @@ def c05_3n(run):
     run.reached('native demonstration executed')
     if v.get('reproduced') is None:
         run.cur.notes.append('native demonstration of F9 could not be run: ' + str(v.get('error'))[-300:])
+
+
+# ----------------------------------------------------------------------------------------------------------------- C06-3 (registered under C06)
+def c06_3(run):
+    """process_proposal accepts an executed block only if both commitments carried in the block equal the ones regenerated from the executed transactions and deposits"""
+    expanded = {}
+
+    def h_expanded(ctx, s):
+        o = Obj('ExpandedBlockData'); o.attrs['tag'] = 'expanded'
+        s.log.append(('expanded', o))
+        return o
+    hooks = [h for h in app_hooks() if 'ExpandedBlockData::new_from' not in h[0].pattern]
+    hooks.insert(0, (re.compile(r'ExpandedBlockData::new_from_(typed|untyped)_data$'), eff('parse_block_data', False, h_expanded)))
+    ex = loader.load(['astria-sequencer', 'astria-core'], scalar_types=SCALARS, dep_adts=['tendermint'], hooks=hooks)
+    cands = [n for n in ex.fns if n.endswith('::process_proposal') and 'closure' not in n and ex.impl_self(n) == (None, 'App')]
+    if len(cands) != 1:
+        raise Inconclusive(f'App::process_proposal not found: {cands}')
+    run.bound(state='execution-state machine Unset (the block is executed by this call)', steps='every step an oracle; generate_rollup_datas_commitment returns arbitrary roots (decided under C07-1)')
+    m, cvals, _ = machine(ex, 'Unset')
+    rvals = {}
+    for name, ty in FIELDS:
+        b = ex.scalar_bits(ty)
+        rvals[name] = z3.BitVec(f'req_{name}', b) if b else opaque(ty, f'req_{name}')
+    if isinstance(rvals['proposed_last_commit'], Obj):
+        rvals['proposed_last_commit'].ty = 'std::option::Option<tendermint::abci::types::CommitInfo>'
+    req = B.struct(ex, 'tendermint::abci::request::ProcessProposal', **rvals)
+    app = B.struct(ex, 'app::App', execution_state=m)
+    st = ex.start(cands[0], [B.cell(app), req, Obj('Storage', kind='opaque')])
+    n_ok = 0
+    for i, p in enumerate(run.explore(ex, st, poll=True, allow_havoc=DEFAULT_CTORS + (r'^Arguments::|fmt::', r'SequencerBlock'))):
+        if p.kind != 'return':
+            run.prove(f'no panic [path {i}]', p.pc, z3.BoolVal(False), detail=p.info); continue
+        kind, r = A.poll_result(p)
+        names = [e[1] for e in p.log if e[0] == 'eff']
+        run.sample({'path': i, 'result': kind, 'effects': names})
+        if kind != 'Ok':
+            continue
+        n_ok += 1
+        objs = [e[1] for e in p.log if e[0] == 'expanded']
+        if not objs:
+            run.prove(f'accepted block went through parsing [path {i}]', p.pc, z3.BoolVal(False)); continue
+        eb = objs[0]
+        run.prove(f'accepted => the commitments carried in the block equal the regenerated ones (rollup data root and rollup ids root), after all transactions executed [path {i}]', p.pc,
+                  z3.And(B.fld(ex, p, eb, 'rollup_transactions_root', '[u8; 32]') == z3.BitVec('expected_datas_root', 256), B.fld(ex, p, eb, 'rollup_ids_root', '[u8; 32]') == z3.BitVec('expected_ids_root', 256),
+                         z3.BoolVal('generate_commitments' in names and 'execute_txs' in names and names.index('execute_txs') < names.index('generate_commitments'))))
+    if not n_ok:
+        raise Inconclusive('vacuity: no accepting path')
+    run.require_reached(*run.cur.reach)
+
+
+def _all_objs(p):
+    seen = set(); out = []
+    def walk(v):
+        if isinstance(v, Obj):
+            if id(v) in seen: return
+            seen.add(id(v)); out.append(v)
+            for x in v.fields.values(): walk(x)
+            for x in v.attrs.values():
+                if isinstance(x, (Obj, list, tuple)): walk(x)
+        elif isinstance(v, (list, tuple)):
+            for x in v: walk(x)
+        elif isinstance(v, Ref):
+            loc = v.loc
+            if loc and loc[0] == 'field': walk(loc[1])
+    for fr in p.frames:
+        for v in fr.locals.values(): walk(v)
+    for e in p.log:
+        walk(e)
+    walk(p.result)
+    for r in (p.roots or {}).values():
+        walk(r)
+    return out
